@@ -515,17 +515,25 @@ def build_query(case, objs, quantifier="an", **qkw):
             dom = [objs[i] if t != "int" else i for i in case["doms"][name]]
             vs[name] = let(types[t], dom, name=name)
 
+    shared = {}     # case["share"]: ONE node object per attribute / index / call expression, used wherever it is written
+
     def opnd(e):
         k = e[0]
         if k == "lit":
             return list(e[1]) if isinstance(e[1], list) else e[1]
         if k == "var":
             return vs[e[1]]
+        key = __import__("json").dumps(e)
+        if case.get("share") and key in shared:
+            return shared[key]
         if k == "idx":
-            return getattr(opnd(e[1]), "pair")[e[2]]
-        if k == "call":
-            return opnd(e[1]).geta()
-        return getattr(opnd(e[1]), e[2])
+            node = getattr(opnd(e[1]), "pair")[e[2]]
+        elif k == "call":
+            node = opnd(e[1]).geta()
+        else:
+            node = getattr(opnd(e[1]), e[2])
+        shared[key] = node
+        return node
 
     # flattened collections: w = flatten(x.kids) is used like a variable that ranges over the elements of x.kids
     for name, e in (case.get("flat") or {}).items():
@@ -898,7 +906,7 @@ def gen_subq_case(rng: Rng, allow_empty: bool = False) -> dict:
 
 
 def gen_case(rng: Rng, profile: str = "c01", extras: bool = False) -> dict:
-    """profile c01: everything; c02: biased to the conjunctive / else-if fragment with duplicate-free domains"""
+    """profile c01: everything; share: the same with more bare attributes and shared node objects; c02: biased to the conjunctive / else-if fragment with duplicate-free domains"""
     if profile == "flatT":
         return gen_flat_twin_case(rng)
     if profile in ("flat", "flat0"):
@@ -959,7 +967,7 @@ def gen_case(rng: Rng, profile: str = "c01", extras: bool = False) -> dict:
         r = rng.random()
         pvars = [n for n in names if case["vars"][n] == "P"]
         tvars = [n for n in names if case["vars"][n] == "T"]
-        if profile != "c02" and pvars and rng.chance(0.04):   # a bare attribute as a condition (its truthiness)
+        if profile != "c02" and pvars and rng.chance(0.3 if profile == "share" else 0.04):   # a bare attribute as a condition (its truthiness)
             return ["cmp", "!=", ["attr", ["var", rng.choice(pvars)], rng.choice(["a", "b"])], ["lit", 0], "bare"]
         if r < 0.10 and pvars:   # contains(items, int)
             return ["contains", ["attr", ["var", rng.choice(pvars)], "items"], int_operand()]
@@ -1028,6 +1036,10 @@ def gen_case(rng: Rng, profile: str = "c01", extras: bool = False) -> dict:
     case["sels"] = sels
     if len(sels) == 1 and rng.chance(0.15):
         case["force_setof"] = True
+    if profile == "share":
+        # ONE node object per written attribute / index / call expression (xa = x.a; and_(xa <= 1, not_(xa))): the model, the
+        # Spec and the fragment flags do not see object identity; repaired in da356f6 (C01-e)
+        case["share"] = 1
     return case
 
 
